@@ -255,3 +255,36 @@ def p_yielded(I, args, kwargs, node):
 
 
 PRIMS['yielded'] = p_yielded
+
+
+def _pat(I, name):
+    from .vc import real_module
+    mod = real_module(I.vc.c.file)
+    return getattr(mod, _m.concretise(name))
+
+
+def p_re_nomatch(I, args, kwargs, node):
+    """re_nomatch('PATTERN_GLOBAL', how, s): pattern.<how>(s) is None"""
+    pat = _pat(I, args[0])
+    how = _m.concretise(args[1])
+    nomatch, _, _, _ = _m.match_functions(pat, how)
+    return VBool(nomatch(_m.strterm(args[2])))
+
+
+def p_re_group(I, args, kwargs, node):
+    """re_group('PATTERN_GLOBAL', how, s, k): group k of pattern.<how>(s) (None if it did not take part)"""
+    pat = _pat(I, args[0])
+    how = _m.concretise(args[1])
+    s = _m.strterm(args[2])
+    m = _m.new_match(I, s, pat, how)
+    from .values import VOpt
+    g = z3.IntVal(_m.concretise(args[3]))
+    return _m.match_group_value(m, g)
+
+
+def p_ascii_ignore(I, args, kwargs, node):
+    f = z3.Function('bytes_decode_ignore', z3.StringSort(), z3.StringSort(), z3.StringSort())
+    return VStr(f(z3.StringVal('ascii'), args[0].t))
+
+
+PRIMS.update({'re_nomatch': p_re_nomatch, 're_group': p_re_group, 'ascii_ignore': p_ascii_ignore})
